@@ -75,12 +75,30 @@ ND3 == NB * ND1
 Total == ND1 + ND2 + ND3
 Expr(j) == IF j < ND1 THEN D1(j) ELSE IF j < ND1 + ND2 THEN D2(j - ND1) ELSE D3(j - ND1 - ND2)
 
-Picked == (0..(ND1 - 1)) \cup {ND1 + Offset + Stride * m : m \in 0..((ND2 + ND3 - 1 - Offset) \div Stride)}
+(* the same expression node evaluated repeatedly, with different operand values each time (nothing may be remembered
+   from one evaluation of a node to the next): every operator with the loop variable on either side *)
+RSeqs == << ArrE(<<StrE("^a"), StrE("b$"), StrE("^ab$"), StrE("1"), StrE("^a")>>), ArrE(<<IntE(1), IntE(2), IntE(0), IntE(7), IntE(2)>>),
+            ArrE(<<StrE("a"), IntE(2), StrE(""), BoolE(TRUE), NullE>>) >>
+RConsts == << StrE("ab"), IntE(2), NameE("arr") >>
+NR == NB * 3 * 3 + 3
+RBody(j) ==
+  IF j < NB * 9 THEN
+    LET op == BinOps[(j % NB) + 1]  sq == RSeqs[((j \div NB) % 3) + 1]  c == RConsts[((j \div (NB * 3)) % 3) + 1] IN
+    <<ForS("", "v", sq, NoE, <<DoS(CallE("id", <<Bin(op, c, NameE("v"))>>)), DoS(CallE("id", <<Bin(op, NameE("v"), c)>>))>>, <<>>, FALSE)>>
+  ELSE LET sq == RSeqs[(j - NB * 9) + 1] IN
+    <<ForS("", "v", sq, NoE, <<DoS(CallE("id", <<Un("not", NameE("v"))>>)), DoS(CallE("id", <<Interp(<<StrE("p"), NameE("v")>>)>>)),
+                              DoS(CallE("id", <<Tern(NameE("v"), NameE("v"), StrE("no"))>>)),
+                              DoS(CallE("id", <<Pipe(NameE("v"), "rec", <<NameE("v")>>)>>)),
+                              DoS(CallE("id", <<TestE(NameE("v"), FALSE, "yes", <<NameE("v")>>)>>))>>, <<>>, FALSE)>>
+RBase == ND1 + ND2 + ND3
+
+Picked == (0..(ND1 - 1)) \cup (RBase..(RBase + NR - 1)) \cup {ND1 + Offset + Stride * m : m \in 0..((ND2 + ND3 - 1 - Offset) \div Stride)}
 
 Init == GenInit(v_lvl, v_idx)
 Next == GenNext(v_lvl, v_idx, Picked, 64)
 
 Case(j) ==
+  IF j >= RBase THEN RenderVec("C05-" \o ToString(j), "repeat", Tpl1("t", RBody(j - RBase)), "t", Ctx, [depth |-> 1]) ELSE
   LET e == Expr(j)
       v == Eval(e, InitState(<<>>, Ctx, 6))
       scalar == v[2].status # "ok" \/ v[1].t \in {"num", "str", "bool", "null"}
